@@ -30,6 +30,7 @@ import (
 	"github.com/tink-crypto/tink-go/v2/keyset"
 	"github.com/tink-crypto/tink-go/v2/secretdata"
 	"github.com/tink-crypto/tink-go/v2/signature"
+	"github.com/tink-crypto/tink-go/v2/signprehash"
 	"github.com/tink-crypto/tink-go/v2/streamingaead"
 )
 
@@ -48,6 +49,8 @@ type block struct {
 	Target  string         `json:"target"`  // name in conc.Targets
 	N       int            `json:"n"`       // calls over all processes
 	Keyset  string         `json:"keyset"`  // hex export (empty for keyid / keygen)
+	KeyID   uint32         `json:"keyid"`   // NoReadback keys: Keyset holds the private key bytes, rebuilt with this id
+	Raw     string         `json:"raw"`     // entry point over raw key bytes (raw.go); Keyset holds the key bytes
 	Classes []string       `json:"classes"` // input classes the calls rotate through
 }
 
@@ -99,8 +102,15 @@ func initKeys(path, only string) {
 			if err != nil {
 				vt.Fatal("generate %s: %v", t.Name, err)
 			}
+			b := &block{Key: t.Name, Kind: t.Kind, Cfg: t.Cfg, Target: t.Name, N: callsFor(t, full), Classes: classNames()}
+			if t.NoReadback {
+				kb, id := conc.KeyBytes(h)
+				b.Keyset, b.KeyID = vt.Hex(kb), id
+			} else {
+				b.Keyset = vt.Hex(conc.Export(h))
+			}
 			mu.Lock()
-			blocks[i] = &block{Key: t.Name, Kind: t.Kind, Cfg: t.Cfg, Target: t.Name, N: callsFor(t, full), Keyset: vt.Hex(conc.Export(h)), Classes: classNames()}
+			blocks[i] = b
 			mu.Unlock()
 		}(i, t)
 	}
@@ -109,6 +119,16 @@ func initKeys(path, only string) {
 		if b != nil {
 			kf.Blocks = append(kf.Blocks, *b)
 		}
+	}
+	for _, rt := range rawTargets() {
+		if only != "" && only != rt.name {
+			continue
+		}
+		n := 512
+		if full {
+			n = 4096
+		}
+		kf.Blocks = append(kf.Blocks, block{Key: rt.name, Kind: rt.kind, Cfg: rt.cfg, Raw: rt.name, N: n, Keyset: vt.Hex(rt.genKey()), Classes: classNames()})
 	}
 	idn := 512
 	if full {
@@ -197,6 +217,21 @@ func caller(t *conc.Target, h *keyset.Handle) func(i int) ([]byte, string) {
 		return func(i int) ([]byte, string) {
 			msg, _, cls := input(i)
 			s, err := p.Sign(msg)
+			chk(t, err)
+			return s, cls
+		}
+	case "prehash":
+		pub, err := h.Public()
+		chk(t, err)
+		ph, err := signprehash.NewPrehash(pub)
+		chk(t, err)
+		p, err := signprehash.NewPrehashSigner(h)
+		chk(t, err)
+		return func(i int) ([]byte, string) {
+			msg, _, cls := input(i)
+			d, err := ph.ComputePrehash(msg)
+			chk(t, err)
+			s, err := p.SignPrehash(d) // the same prehash every time within a class
 			chk(t, err)
 			return s, cls
 		}
@@ -328,15 +363,31 @@ func runBlock(b block, ts []conc.Target, proc int) []vt.Ev {
 		}
 	default:
 		t := conc.Find(ts, b.Target)
+		rt := findRaw(b.Raw)
+		if t == nil && rt == nil {
+			vt.Fatal("unknown target of history %s", b.Key)
+		}
 		raw := vt.Unhex(b.Keyset)
 		each := per / (nHandles * nInstances)
 		if each < 1 {
 			each = 1
 		}
 		for h := 0; h < nHandles; h++ {
-			kh := conc.Import(raw) // a separately parsed handle of the same key
+			var kh *keyset.Handle
+			switch {
+			case rt != nil: // raw key bytes: every instance is built from a fresh copy of them
+			case t.NoReadback:
+				kh = conc.Rebuild(t, raw, b.KeyID) // a separately built handle of the same key
+			default:
+				kh = conc.Import(raw) // a separately parsed handle of the same key
+			}
 			for inst := 0; inst < nInstances; inst++ {
-				call := caller(t, kh) // a new primitive instance
+				var call func(int) ([]byte, string)
+				if rt != nil {
+					call = rt.mk(append([]byte{}, raw...)) // a new primitive instance
+				} else {
+					call = caller(t, kh) // a new primitive instance
+				}
 				if inst == nInstances-1 && each >= 2*nGoroutines {
 					// the last instance is shared by several goroutines calling at once: state kept in the primitive
 					// (a nonce scratch buffer, a counter) repeats or tears values only under concurrency
